@@ -25,10 +25,13 @@ KindClass(k) == CASE k \in {"not_enough_arguments", "too_many_arguments"} -> "ar
                   [] k = "invalid_slice" -> "slice"
                   [] OTHER -> "other"
 
+(* the document: a tagged value, or JSON text given meaning by JsonParse *)
+DocOf(r) == IF "doctext" \in DOMAIN r THEN JsonParse(r.doctext) ELSE [ok |-> TRUE, dom |-> TRUE, v |-> r.doc]
+
 Exp(r) ==
-  LET L == Lex(r.text, {}) IN
-  IF ~L.ok \/ ~L.dom \/ L.toks = <<>> \/ ~Accepts(L.toks, {}) THEN [skip |-> TRUE]
-  ELSE LET t == TreeOf(L.toks) IN [skip |-> FALSE, t |-> t, o |-> Eval(t, r.doc, Builtins)]
+  LET L == Lex(r.text, {}) d == DocOf(r) IN
+  IF ~L.ok \/ ~L.dom \/ L.toks = <<>> \/ ~Accepts(L.toks, {}) \/ ~d.ok \/ ~d.dom THEN [skip |-> TRUE]
+  ELSE LET t == TreeOf(L.toks) IN [skip |-> FALSE, t |-> t, d |-> d.v, o |-> Eval(t, d.v, Builtins)]
 
 (* how the observed outcome relates to the outcome o the specification assigns *)
 Verdict(o, out) ==
@@ -66,7 +69,7 @@ Special(t, doc, out) ==
 Why(r) ==
   LET x == Exp(r) IN
   IF x.skip THEN "none"
-  ELSE IF x.o.amb THEN LET sp == Special(x.t, r.doc, r.out) IN IF sp = "na" THEN "none" ELSE sp
+  ELSE IF x.o.amb THEN LET sp == Special(x.t, x.d, r.out) IN IF sp = "na" THEN "none" ELSE sp
   ELSE Verdict(x.o, r.out)
 
 (* Level 1 with deviations D reproduces the observation: same acceptance, and the meaning of the tree the parser
@@ -74,7 +77,8 @@ Why(r) ==
 Repro(r, D) ==
   LET L == Lex(r.text, D)
       P == IF L.ok THEN Parse(L.toks, D) ELSE Fail(0)
-  IN L.ok /\ P.ok /\ LET o == Eval(P.t, r.doc, Builtins) IN ~o.amb /\ Verdict(o, r.out) = "none"
+      d == DocOf(r)
+  IN L.ok /\ P.ok /\ d.ok /\ LET o == Eval(P.t, d.v, Builtins) IN ~o.amb /\ Verdict(o, r.out) = "none"
 
 Allowed(r) == Why(r) = "none"
 Expected(r) == LET x == Exp(r) IN [why |-> Why(r), spec |-> IF x.skip THEN [skip |-> TRUE] ELSE x.o]
@@ -85,7 +89,7 @@ Explains(r) ==
   ELSE <<>>
 NonTrivial(r) == "ok" \in DOMAIN r.out /\ r.out.ok.t # "null"
 
-Unjudged(r) == LET x == Exp(r) IN x.skip \/ (x.o.amb /\ Special(x.t, r.doc, r.out) = "na")
+Unjudged(r) == LET x == Exp(r) IN x.skip \/ (x.o.amb /\ Special(x.t, x.d, r.out) = "na")
 
 J == INSTANCE JudgeLoop
 Spec == J!Spec
